@@ -148,3 +148,175 @@ Proof.
   destruct (String.eqb n "OpJumpBackward") eqn:E4; [|discriminate H].
   apply String.eqb_eq in E4. subst n. injection H as <-. unfold operand_instr. cbn. rewrite Nat2Z.id. reflexivity.
 Qed.
+
+(* ------------------------------------------------------------------ the interpreter asks rec about children only *)
+Lemma node_child_in e f y : node_child e f = Some y -> In y (children e).
+Proof.
+  destruct e; cbn [node_child children]; try discriminate;
+    repeat match goal with
+           | |- (if ?b then _ else _) = _ -> _ => destruct b
+           end;
+    intros H; try discriminate H; try (injection H as <-; cbn [In]; tauto).
+  - (* slice: From *) subst. right. apply in_or_app. left. left. reflexivity.
+  - (* slice: To *) subst. right. apply in_or_app. right. left. reflexivity.
+Qed.
+
+Lemma node_list_in e f l y : node_list e f = Some l -> In y l -> In y (children e).
+Proof.
+  destruct e; cbn [node_list children]; try discriminate;
+    destruct (String.eqb f _); try discriminate; intros H; injection H as <-; intros Hy; try exact Hy.
+  right. exact Hy.
+Qed.
+
+Lemma children_smaller e y : In y (children e) -> esize y < esize e.
+Proof.
+  destruct e; cbn [children esize In]; rewrite ?lsize_fix; intros H;
+    repeat match goal with
+           | H : _ \/ _ |- _ => destruct H as [H|H]
+           | H : False |- _ => contradiction
+           end; subst; try lia;
+    try (pose proof (in_lsize_le _ _ H); lia).
+  (* slice *)
+  apply in_app_or in H. destruct H as [H|H].
+  - destruct from; cbn [opt_list In] in H; [destruct H as [H|H]; [subst; lia|contradiction]|contradiction].
+  - destruct to; cbn [opt_list In] in H; [destruct H as [H|H]; [subst|contradiction]|contradiction].
+    destruct from; lia.
+Qed.
+
+Section Ext.
+Variable T : Type.
+Variable tsize : list T -> nat.
+Variable mkI : instr -> loc -> T.
+Variable mkC : const -> list T.
+Variable G : schemes.
+Variables rec1 rec2 : expr -> option (list T).
+Variable P : expr -> Prop.
+Hypothesis Hrec : forall y, P y -> rec1 y = rec2 y.
+
+Definition ctx_in (x : ctx) : Prop :=
+  (forall sl y, eval_slot x sl = Some y -> P y) /\
+  (forall e f l y, x_node x = Some e -> node_list e f = Some l -> In y l -> P y).
+
+Lemma each_ext l : (forall y, In y l -> P y) -> each T rec1 l = each T rec2 l.
+Proof.
+  induction l as [|y l IH]; intros H; [reflexivity|].
+  cbn [each]. rewrite (Hrec y (H y (or_introl eq_refl))), IH; [reflexivity|].
+  intros z Hz. apply H. right. exact Hz.
+Qed.
+
+Lemma exec1_ext x h s : ctx_in x -> exec1 T tsize G rec1 x h s = exec1 T tsize G rec2 x h s.
+Proof.
+  intros [Hs Hl]. destruct h as [op|op k|op v|op n|v k|v op|k|sl|f|op v|v|v|op v|c a b|on cases dflt|fn res body| | |v| |src]; try reflexivity.
+  - (* SCompile *)
+    cbn [exec1]. destruct (eval_slot x sl) as [e|] eqn:E; [|reflexivity].
+    rewrite (Hrec e (Hs _ _ E)). reflexivity.
+  - (* SCompileEach *)
+    cbn [exec1]. destruct (x_node x) as [e|] eqn:E; [|reflexivity].
+    destruct (node_list e f) as [l|] eqn:El; [|reflexivity].
+    rewrite (each_ext l); [reflexivity|]. intros y Hy. exact (Hl e f l y eq_refl El Hy).
+Qed.
+
+Lemma ctx_in_param x c : ctx_in x -> ctx_in (with_param x c).
+Proof.
+  intros [Hs Hl]. split.
+  - intros sl y H. apply (Hs sl y). destruct sl; exact H.
+  - intros e f l y H. exact (Hl e f l y H).
+Qed.
+
+Lemma run_ext fuel : forall x clo ss s, ctx_in x ->
+  run T tsize G rec1 fuel x clo ss s = run T tsize G rec2 fuel x clo ss s.
+Proof.
+  induction fuel as [|fuel IH]; intros x clo ss s Hx; destruct ss as [|h rest]; try reflexivity.
+  cbn [run]. destruct (returned T s); [reflexivity|].
+  assert (K : forall r, match r with Some s1 => run T tsize G rec1 fuel x clo rest s1 | None => None end
+                      = match r with Some s1 => run T tsize G rec2 fuel x clo rest s1 | None => None end).
+  { intros [s1|]; [apply IH; exact Hx|reflexivity]. }
+  destruct h as [op|op k|op v|op n|v k|v op|k|sl|f|op v|v|v|op v|c a b|on cases dflt|fn res body| | |v| |src]; cbv beta iota zeta; try (rewrite (exec1_ext x _ s Hx); apply K).
+  - (* SPush *)
+    destruct (eval_carg x k) as [c|]; [|reflexivity].
+    destruct (lookup "emitPush" (s_funcs G)) as [hs|]; [|reflexivity].
+    rewrite (IH _ None hs _ (ctx_in_param x c Hx)).
+    destruct (run T tsize G rec2 fuel (with_param x c) None hs (enter T s)); [apply K|reflexivity].
+  - (* SIf *) destruct (eval_cond x c) as [[|]|]; try reflexivity; rewrite (IH x clo _ s Hx); apply K.
+  - (* SSwitch *) destruct (select x on cases dflt) as [body|]; [|reflexivity]. rewrite (IH x clo _ s Hx). apply K.
+  - (* SCallBody *)
+    destruct (lookup fn (s_funcs G)) as [hs|]; [|reflexivity].
+    rewrite (IH x _ hs _ Hx). destruct (run T tsize G rec2 fuel x (Some (Clo body clo)) hs (enter T s)); [apply K|reflexivity].
+  - (* SBody *)
+    destruct clo as [[body outer]|]; [|reflexivity]. destruct (envs T s) as [|henv cenvs]; [reflexivity|].
+    rewrite (IH x outer body _ Hx).
+    destruct (run T tsize G rec2 fuel x outer body _); [apply IH; exact Hx|reflexivity].
+Qed.
+End Ext.
+
+(* rec1 and rec2 agree on the children of e: same result for e *)
+Lemma interp_ext T tsize mkI mkC G (rec1 rec2 : expr -> option (list T)) mapenv e :
+  (forall y, In y (children e) -> rec1 y = rec2 y) ->
+  interp T tsize mkI mkC G rec1 mapenv e = interp T tsize mkI mkC G rec2 mapenv e.
+Proof.
+  intros H. unfold interp.
+  destruct (lookup (nkind_name (nkind_of e)) (s_dispatch G)) as [m|]; [|reflexivity].
+  destruct (lookup m (s_funcs G)) as [body|]; [|reflexivity].
+  rewrite (run_ext T tsize G rec1 rec2 (fun y => In y (children e)) H); [reflexivity|].
+  split.
+  - intros sl y E. destruct sl as [f|f i|]; cbn in E.
+    + eapply node_child_in; eauto.
+    + destruct (node_list e f) as [l|] eqn:El; [|discriminate E].
+      eapply node_list_in; eauto. eapply nth_error_In; eauto.
+    + discriminate E.
+  - intros e' f l y E El Hy. cbn in E. injection E as <-. eapply node_list_in; eauto.
+Qed.
+
+(* Compile's statements ask rec about the root only *)
+Lemma interp_program_ext T tsize mkI mkC G (rec1 rec2 : expr -> option (list T)) mapenv c e :
+  rec1 e = rec2 e ->
+  interp_program T tsize mkI mkC G rec1 mapenv c e = interp_program T tsize mkI mkC G rec2 mapenv c e.
+Proof.
+  intros H. unfold interp_program.
+  destruct (lookup "Compile" (s_funcs G)) as [body|]; [|reflexivity].
+  rewrite (run_ext T tsize G rec1 rec2 (fun y => y = e)); [reflexivity| |].
+  - intros y ->. exact H.
+  - split.
+    + intros sl y E. destruct sl as [f|f i|]; cbn in E; try discriminate E. injection E as <-. reflexivity.
+    + intros e' f l y E. discriminate E.
+Qed.
+
+(* ------------------------------------------------------------------ the children of a compilable node *)
+Lemma esize_positive e : 0 < esize e.
+Proof. destruct e; cbn [esize]; lia. Qed.
+
+Ltac split_andb :=
+  repeat match goal with
+         | H : _ && _ = true |- _ => apply andb_prop in H; destruct H
+         end.
+
+Ltac pick_child Hy :=
+  cbn [In] in Hy;
+  repeat (destruct Hy as [Hy|Hy]; [subst; apply node_compilable_of; assumption|]);
+  try contradiction.
+
+Lemma children_compilable e y : node_compilable e = true -> In y (children e) -> node_compilable y = true.
+Proof.
+  destruct e; cbn [node_compilable compilable children]; intros Hc Hy; try contradiction.
+  - (* unary *) destruct op; try discriminate Hc; pick_child Hy.
+  - (* binary *) destruct op; try discriminate Hc; split_andb; pick_child Hy.
+  - (* matches *) split_andb; pick_child Hy.
+  - (* property *) pick_child Hy.
+  - (* index *) split_andb; pick_child Hy.
+  - (* slice *)
+    split_andb. destruct Hy as [Hy|Hy]; [subst; apply node_compilable_of; assumption|].
+    apply in_app_or in Hy. destruct Hy as [Hy|Hy].
+    + destruct from; cbn [opt_list] in Hy; pick_child Hy.
+    + destruct to; cbn [opt_list] in Hy; pick_child Hy.
+  - (* method *)
+    split_andb. destruct Hy as [Hy|Hy]; [subst; apply node_compilable_of; assumption|].
+    apply node_compilable_of. eapply all_compilable; eauto.
+  - (* function *) apply node_compilable_of. eapply all_compilable; eauto.
+  - (* builtin *)
+    destruct b; destruct args as [|x [|c [|z more]]]; try discriminate Hc; split_andb; pick_child Hy.
+  - (* closure *) pick_child Hy.
+  - (* conditional *) split_andb; pick_child Hy.
+  - (* array *) apply node_compilable_of. eapply all_compilable; eauto.
+  - (* map *) eapply all_pairs_compilable; eauto.
+  - (* pair *) split_andb; pick_child Hy.
+Qed.
